@@ -39,7 +39,7 @@ def auth_status(P):
     from ..report import Report
     status = {}
     mods = []
-    for name in ("c04", "c05", "c07", "c09", "c10", "c17", "c19"):
+    for name in ("c03", "c04", "c05", "c07", "c09", "c10", "c12", "c14", "c17", "c19"):
         try:
             mods.append(__import__("hsrules.props." + name, fromlist=["rules"]))
         except ImportError:
@@ -61,6 +61,8 @@ def auth_status(P):
 
 def rules(P, R, prefix="C15", auth=None):
     auth = auth if auth is not None else auth_status(P)
+    auth = dict(auth)
+    auth["C15.ENV-OWN-KEY"] = all(own_key_rule(prog, R, prefix, "" if cfg == "default" else "@" + cfg) for cfg, prog in P.items())
     total_sites = 0
     classes = {}
     for cfg, prog in P.items():
@@ -101,6 +103,31 @@ def rules(P, R, prefix="C15", auth=None):
         n_rules(prog, env, W, R, prefix, tag)
     R.stat("discharge_classes", classes)
     R.stat("sites_total", total_sites)
+
+
+def own_key_rule(prog, R, prefix, tag):
+    """ENV-OWN-KEY: the function that spawns the consensus core first resolves the node's own key in the
+    committee with a start-up expect, so the committee is non-empty whenever the core runs."""
+    env = Env(prog)
+    ok_all = True
+    sites = prog.calls_to("consensus::core::Core::spawn")
+    sites = [(f, n) for f, n in sites if not f.derived]
+    if not R.judge(bool(sites), prefix + ".ENV-OWN-KEY", "Core::spawn call site" + tag, "", "",
+                   "anchor-missing: no call of consensus::core::Core::spawn", reason="anchor-missing"):
+        return False
+    for (f, n), i in ordinal_keys(sites, lambda x: x[0].path):
+        ctx = env.ctx(f)
+        flow = env.flow(f)
+        name_t = ctx.term(n["args"][0]) if n["args"] else "?"
+        doms = flow.dominators(n)
+        hit = [d for d in doms if d["k"] == "mcall" and d["name"] in ("expect", "unwrap") and d["recv"]["k"] == "mcall"
+               and d["recv"]["name"] in ("address", "stake") and d["recv"]["args"] and ctx.term(d["recv"]["args"][0]) == name_t]
+        ok = R.judge(bool(hit), prefix + ".ENV-OWN-KEY", key(f, "own key resolved in the committee before Core::spawn" + tag, i), n["sp"],
+                     "committee.address(&%s).expect(..) precedes Core::spawn(%s, ..)" % (name_t, name_t),
+                     "no start-up lookup of the node's own key (%s) in the committee precedes Core::spawn: an empty committee "
+                     "would reach `round %% 0`" % name_t)
+        ok_all = ok_all and ok
+    return ok_all
 
 
 def n_rules(prog, env, W, R, prefix, tag):
